@@ -9,11 +9,12 @@ the other in one process (anything the parser keeps between parses is part of th
 
 Concrete stages (structural facts: which definitions / names / prefixes end up in the merged tree, accept or
 reject, identical JSON):
- * first use: every file order is assembled (parse and merge interleaved) as the FIRST thing a pristine
-   process does; merged trees and flat models must be identical for all orders;
- * sequence: in one process all orders x three merge styles (onto an empty Tree, onto the first file's tree,
-   tools.compiler.parse_all on real files) with one set of literals, then with another set under the same
-   package / class names, then the first set again;
+ * sequence: in one new process per library all orders x three merge styles (onto an empty Tree, onto the first
+   file's tree, tools.compiler.parse_all on real files) with one set of literals, then with another set under
+   the same package / class names, then the first set again; then every order as the first use of freshly
+   re-imported pymoca.ast / parser / tree modules; everything must equal the process's first assembly;
+ * first use: a file order is assembled (parse and merge interleaved) as the FIRST thing a new process does
+   (quick: the reversed order, thorough: every order) and compared with the sequence process's first assembly;
  * walk: casadi.api._compile_model on real folders - os.walk presenting the files in every order, a
    package.mo layout with identical base names, and every distribution of the files over the model folder
    and one or two `library_folders`."""
@@ -528,12 +529,10 @@ def main():
     # A `history` shard on which CrossHair itself fails (an execution that is not deterministic across paths is what
     # state kept by the parser between parses looks like) is decided by the concrete replay below.
     undecided_hist = [v for v in vs if v.func == "history" and v.kind not in ("confirmed", "counterexample", "exception")]
-    replayed = {}
     for v in undecided_hist:
         pins = dict(kv.split("=") for kv in v.pin.split(","))
         res, p = _concrete_replay("history", pins, [3, 4, 5, 6, 13, 14, 15, 16])
         if res and res[0][0] == "0":
-            replayed[id(v)] = res
             v.kind, v.detail = "counterexample", f"false when calling history({pins['pi']}, {pins['style']}, 3, 4, 5, 6, 13, 14, 15, 16) [concrete run after: {v.detail[:80]}]"
     n = chx.summarize(rep, vs)
     for v in reach:
@@ -570,23 +569,27 @@ def main():
     cov = rep.coverage
     cov["states"] = max(1, n["confirmed"])
     cov["transitions"] = max(1, len(vs))
-    cov["traces_validated_against_impl"] = cov.get("api_walk_compiles", 0) + cov.get("first_use_assemblies", 0) + cov.get("assemblies_in_sequence", 0)
+    cov["traces_validated_against_impl"] = sum(cov.get(k, 0) for k in ("api_walk_compiles", "first_use_assemblies", "assemblies_in_sequence", "assemblies_after_module_reload"))
     cov["samples"] = [{"function": v.func, "pin": v.pin, "verdict": v.kind, "secs": round(v.secs, 1)} for v in vs][:10]
     cov["exhaustive"] = all(v.kind == "confirmed" for v in vs)
     cov["functions_encoded"] = ["parser.file_to_tree (concrete, outside tracing; in `history` shards and the concrete stages re-run for every merge)",
                                 "ast.Tree.extend / Class._extend / update_parent_refs, tree.flatten (executed symbolically by CrossHair, literals symbolic)",
                                 "tools.compiler.parse_all / list_modelica_files (concrete, real files, listed in every order and as a folder)",
                                 "casadi.api._compile_model directory walk (concrete, os.walk order permuted; model folder + library_folders)"]
+    n_hist = sum(1 for v in vs if v.func == "history")
     cov["bounds"] = ("CrossHair: 12 libraries split into 2-4 files with within clauses (package constant used from a within file; nested package with constant, its own file and files within it; "
                      "placeholder-only package; 4 files incl. a sub-package file with type alias and import; plain top-level models; package own file with only renamed/unqualified imports and a "
                      "nested package; own file with only qualified imports; own file with only an extends clause (the package itself is flattened); three levels of within clauses; a class name "
-                     "shadowed inside the package; package nested in a package of the same name; two packages using each other), every file permutation in thorough (quick: 8 of 23 for the first "
-                     "4-file library, for the libraries without package constants the orders with the own file after a within file, the other 4 added libraries in thorough only), two merge "
-                     "styles; 4 symbolic integer literals per library; `history` shards (quick 3, thorough 50): assemble with literals v, then parse and assemble again with literals w in order 0 "
-                     "and in the pinned order, 8 symbolic literals.  Concrete: the same 12 libraries plus one with class prefixes (final encapsulated partial, annotation): every order as the first "
-                     "parser use of a new process; every order x {empty Tree, first file's tree, tools.compiler.parse_all} with two literal sets and a repeat in one process, merged tree JSON + "
-                     "parent links + flat models compared; CasADi API walk: every os.walk order, package.mo layout, every distribution of the files over model folder and 1 (quick) or 2 "
-                     "(thorough, both orders) library_folders, for " + ("all 12" if a.tier == "thorough" else "5") + " libraries")
+                     "shadowed inside the package; package nested in a package of the same name; two packages using each other).  Orders: the first 5 libraries every file permutation (quick: 8 of "
+                     "23 for the 4-file library); the 7 added ones in thorough every permutation of the 2-/3-file libraries and 8 of 23 of the 4-file ones, in quick only the orders with the own "
+                     "file after a within file of the imports-only / extends-only libraries; two merge styles; 4 symbolic integer literals per library.  "
+                     f"`history` shards ({n_hist}): assemble with literals v, then parse and assemble again with literals w in order 0 and in the pinned order (which starts with a within file), "
+                     "8 symbolic literals.  Concrete, the same 12 libraries plus one with class prefixes (final encapsulated partial, annotation), two fixed literal sets: in one new process per "
+                     "library every order x {empty Tree, first file's tree} (quick: alternating for 4-file libraries) and tools.compiler.parse_all on real files (quick: every third order), with "
+                     "literal set A, then B under the same names, then A again, then every order as first use after re-importing pymoca.ast/parser/tree; merged tree JSON + parent links + flat "
+                     "models compared; first parser use of a new process: order 0 and the reversed order per library (thorough: every order).  CasADi API walk: every os.walk order, package.mo "
+                     "layout, every distribution of the files over the model folder and 1 (quick) or 2 (thorough, both orders) library_folders, for "
+                     + ("all 12" if a.tier == "thorough" else "5 (plain, placeholder-only, nested, imports-only, pkgconst)") + " libraries")
     rep.assumptions += ["only order-independence is demanded, as stated - not equality with an unsplit library", "files are parsed outside tracing; literals are substituted into the parsed trees",
                         "the concrete stages compare structure (merged tree JSON, raise/ok, identical flat model JSON) for two fixed literal sets; value-level equality for all literals is decided by the CrossHair shards",
                         "a `history` shard on which CrossHair reports a non-deterministic execution is decided by a concrete run with literals 3..6 / 13..16 (reported only if that run fails)"]
